@@ -87,12 +87,18 @@ def project(market, pool: Pool, broker):
 def run_behaviour(pool: Pool, scn, events, row0, float_ticks=False, est_ranges=None, F=1, acct_f=None):
     """Execute through the real Actuator.  Returns list of records, one per event:
     dict(out, exc, ret, proj, nv) for operations; dict(proj, nv) for endbar; plus a possible run-level error."""
-    bars = [[]]
+    bars = [[]]          # operations issued in on_bar, per bar
+    late = [None]        # None: the bar's update is not an event of the behaviour; a list: the operations issued in after_bar
     rows = [row0]
     for ev in list(scn) + list(events):
         if ev["op"] == "endbar":
             bars.append([])
+            late.append(None)
             rows.append(ev["next"])
+        elif ev["op"] == "update":
+            late[-1] = []
+        elif late[-1] is not None:
+            late[-1].append(ev)
         else:
             bars[-1].append(ev)
     df = pool.frame(rows, float_ticks, F)
@@ -170,22 +176,30 @@ def run_behaviour(pool: Pool, scn, events, row0, float_ticks=False, est_ranges=N
         a = act.broker.get_account_status(snapshot.prices)
         return (frac(Decimal(a.net_value)), frac(Decimal(a.asset_value)), frac(Decimal(a.market_status[market.market_info].net_value)))
 
+    def issue(evs, snapshot):
+        for ev in evs:
+            n0 = len(act.actions)
+            nv0 = acct(snapshot)[0]
+            try:
+                ret = do(ev)
+                out, exc = "ok", None
+            except Exception as e:
+                ret, out, exc = None, "reject", f"{type(e).__name__}: {e}"
+            recs.append({"out": out, "exc": exc, "ret": ret, "proj": project(market, pool, act.broker),
+                         "view": views(), "nacts": len(act.actions) - n0, "nv0": nv0, "acct": acct(snapshot)})
+
+    def bar_record(snapshot):
+        return {"endbar": True, "proj": project(market, pool, act.broker), "view": views(), "last_tick": market.last_tick, "acct": acct(snapshot)}
+
     class S(Strategy):
         def on_bar(self_, snapshot):
-            for ev in bars[snapshot.row_id]:
-                n0 = len(act.actions)
-                nv0 = acct(snapshot)[0]
-                try:
-                    ret = do(ev)
-                    out, exc = "ok", None
-                except Exception as e:
-                    ret, out, exc = None, "reject", f"{type(e).__name__}: {e}"
-                recs.append({"out": out, "exc": exc, "ret": ret, "proj": project(market, pool, act.broker),
-                             "view": views(), "nacts": len(act.actions) - n0, "nv0": nv0, "acct": acct(snapshot)})
+            issue(bars[snapshot.row_id], snapshot)
 
         def after_bar(self_, snapshot):
-            recs.append({"endbar": True, "proj": project(market, pool, act.broker), "view": views(), "last_tick": market.last_tick,
-                         "acct": acct(snapshot)})
+            if late[snapshot.row_id] is not None:
+                recs.append(bar_record(snapshot))           # the "update" event: fees of the bar accrued
+                issue(late[snapshot.row_id], snapshot)      # operations after the bar's update
+            recs.append(bar_record(snapshot))
 
     act.strategy = S()
     err = None
@@ -269,13 +283,13 @@ def compare_run(pool: Pool, recs, err, steps, tally, init_proj=None, init_st=Non
         # the run aborted: attribute to the phase that raised
         i = len(recs)
         ev = steps[i][0] if i < len(steps) else {"op": "?"}
-        owner = "C08" if ev["op"] == "endbar" else "C05"
+        owner = "C08" if ev["op"] in ("endbar", "update") else "C05"
         return [MM(owner, "run_raises", f"Actuator.run raised {err} at event {i} ({ev['op']})")], i
     prev_proj = init_proj if init_proj is not None else {"w": pool.w0, "pos": {}, "lent": []}
     prev_st = {"pos": {tuple(k): v for k, v in init_st["pos"].items()}} if init_st else None
     for i, ((ev, out, ret, st), rec) in enumerate(zip(steps, recs)):
         mm = []
-        if ev["op"] == "endbar":
+        if ev["op"] in ("endbar", "update"):
             if not rec.get("endbar"):
                 return [MM("C05", "record_order", f"event {i}: expected the end of a bar")], i
             mm += cmp_state(rec["proj"], st, tally, True, prev_proj, prev_st)
@@ -305,7 +319,7 @@ def compare_run(pool: Pool, recs, err, steps, tally, init_proj=None, init_st=Non
             # C01 at the account level: wallet at the bar's prices + the market's value (the pool's quote token is the account's)
             tally("C01/uni_account_net_value")
             price = Q(views[i]["price"])
-            w = (Q(st["w"][0]), Q(st["w"][1])) if ev["op"] != "endbar" else rec["proj"]["w"]
+            w = (Q(st["w"][0]), Q(st["w"][1])) if ev["op"] not in ("endbar", "update") else rec["proj"]["w"]
             b, q = (w[1], w[0]) if pool.zq else (w[0], w[1])
             fq = Fraction(1) if acct_f is None else acct_f          # account quote per pool quote token
             spec_av, spec_mv = (b * price + q) * fq, Q(views[i]["net"])
@@ -319,7 +333,7 @@ def compare_run(pool: Pool, recs, err, steps, tally, init_proj=None, init_st=Non
             elif not close(nv, spec_av + spec_mv * fq, REL, ABS):
                 mm.append(MM("C01", "net_value", f"account net_value code {float(nv)!r} spec {float(spec_av + spec_mv * fq)!r}"
                                                  + (f" (market quoted in a token worth {float(fq)} of the account's)" if acct_f is not None else "")))
-        if not mm and ev["op"] != "endbar":
+        if not mm and ev["op"] not in ("endbar", "update"):
             # C03: frozen market.  add/remove/collect conserve the reported net value up to wallet dust (and the integer liquidity
             # floor, far below); buy/sell lose exactly the reported fee; nothing negative
             tally("C03/uni_value_conserved")
